@@ -59,6 +59,18 @@ func drawMutations(t *rapid.T, o nOpts) []sim.Mutation {
 func drawNCase(t *rapid.T, o nOpts) sim.NCase {
 	cfg, me := drawNConfig(t, o.Focus)
 	c := sim.NCase{Cfg: cfg, Me: me}
+	// height prefix: the node is not always at the first height - it gets to a later one by its own commit or by a node sync
+	// (a term that starts from a sync is told that it cannot lead view 0; everything else about it is the same)
+	if rapid.IntRange(0, 2).Draw(t, "height-prefix") == 0 {
+		for k := rapid.IntRange(1, 2).Draw(t, "heights"); k > 0; k-- {
+			c.Cfg.MaxHeight++
+			if rapid.Bool().Draw(t, "by-sync") {
+				c.Steps = append(c.Steps, sim.NStep{K: "sync"})
+			} else {
+				c.Steps = append(c.Steps, sim.NStep{K: "round"})
+			}
+		}
+	}
 	// state prefix: proposals / prepares / timeouts
 	view := uint64(0)
 	for i := rapid.IntRange(0, 5).Draw(t, "prefix"); i > 0; i-- {
@@ -78,6 +90,9 @@ func drawNCase(t *rapid.T, o nOpts) sim.NCase {
 		case 5:
 			c.Steps = append(c.Steps, sim.NStep{K: "prepares", View: view, A: rapid.IntRange(0, 3).Draw(t, "partial")})
 		}
+	}
+	if rapid.IntRange(0, 4).Draw(t, "resync?") == 0 { // the host repeats an UpdateState the node already has (nothing may come of it)
+		c.Steps = append(c.Steps, sim.NStep{K: "resync", A: rapid.IntRange(0, 1).Draw(t, "resync-back")})
 	}
 	if o.Scenarios && rapid.IntRange(0, 3).Draw(t, "scenario?") == 0 {
 		// scenario: a message for an upcoming view arrives early, then the node enters that view by a valid NEW_VIEW, gets prepared
@@ -147,6 +162,12 @@ func nProperty(t *testing.T, o nOpts) {
 				b, _ := json.Marshal(c)
 				col.NonTrivial(string(b))
 			}
+		}
+		if r.Resyncs > 0 {
+			col.Class("N:repeated-update-state")
+		}
+		for _, j := range r.LeaderJudged {
+			col.Class("N:reference-leader-proposal-judged:" + j)
 		}
 		for _, st := range c.Steps {
 			for _, m := range st.Muts {
